@@ -25,6 +25,7 @@ RULE += (' Also: cycle over a list that is changed after the first pass.')
 RULE += (" Also: after a tool was closed early the caller's synchronous one-shot iterators still yield everything that was not taken.")
 RULE += (' Also: chain / chain.from_iterable ask a re-iterable argument for its iterator no earlier than the counterpart (once the previous argument is used up).')
 RULE += (' Also: inputs in which every occurrence of a key is the very same object.')
+RULE += (' Also: zip(strict=<true object that is not True>) is strict.')
 ASSUMPTIONS = ["stdlib 3.12 is the reference; events compared are exactly pulls, end checks, calls, yields",
                "generator-flavoured sources are compared with generator twins (a pull after exhaustion is invisible there)",
                "accumulate([]) without initial: only the pull/end events before the documented TypeError are compared"]
